@@ -215,6 +215,9 @@ func (c19) Gen(r *sim.Rng, tier string) *scn.Scn {
 		var ops []scn.Op
 		for i, n := 0, r.Range(1, 5); i < n; i++ {
 			op := scn.Op{Op: c19InprocOps[r.Intn(len(c19InprocOps))], Obj: r.Intn(len(s.Objects)), N: int64(r.Intn(1 << 20)), M: int64(r.Intn(1 << 20))}
+			if only := os.Getenv("PBSIM_C19_ONLY"); only != "" { // experiments only
+				op.Op = only
+			}
 			if s.P["checkinit_bias"] == 1 && r.Chance(1, 2) {
 				// first use of one of the MessageInfos added last, through the initialization check
 				op.Op = []string{"mi-checkinit", "mi-checkinit", "mi-roundtrip"}[r.Intn(3)]
